@@ -457,6 +457,13 @@ def run(ck):
                 continue
             on, ref = a["results"]
             if on["class"] == "ok" and ref["class"] == "ok" and rows_key(on["rows"]) != rows_key(ref["rows"]):
+                opt_plan = on.get("optimized") or ""
+                if "(join right_outer" in opt_plan or "(join full_outer" in opt_plan:
+                    # the rule did not fire (e.g. its join-type guard): what is left is a nested-loop
+                    # right/full outer join, which the executor cannot run (recorded separately)
+                    ck.report("plan:nl-outer-join-left-in-optimized-plan", "the optimized plan of `%s` keeps a nested-loop right/full outer join, which the executor cannot run (todo!(); the statement silently returns no rows)" % c["sql"],
+                              replay={"case": c, "on": on, "reference": ref})
+                    continue
                 ck.report(r["sig"], "`%s` (optimized; plan %s) returns %s, the equivalent `%s` run unoptimized returns %s" % (
                     c["sql"], on.get("optimized"), rows_key(on["rows"]), c["reference_sql"], rows_key(ref["rows"])),
                     replay={"case": c, "on": on, "reference": ref})
